@@ -299,9 +299,14 @@ class RayleighPSFPointSourceSignalSpatialPDF(
         sigma = get_data('ang_err')
         sigma_sq = np.take(sigma**2, evt_idxs)
 
+        # The ratio psi/sin(psi) is 1 in the limit psi -> 0.
+        psi_over_sin_psi = np.ones_like(psi, dtype=np.float64)
+        m = psi != 0
+        psi_over_sin_psi[m] = psi[m] / np.sin(psi[m])
+
         self._pd = (
-            0.5/(np.pi*np.sin(psi)) *
-            (psi / sigma_sq) *
+            0.5/(np.pi*sigma_sq) *
+            psi_over_sin_psi *
             np.exp(-0.5*(psi**2/sigma_sq))
         )
 
